@@ -569,6 +569,11 @@ func c11Scenarios() []schedrun.Scenario {
 		c11Scenario("established-leaves-vs-newcomer", kick, []int{0}, [][]c11Op{{X(0)}, {L(1)}}, 2, 4),
 		c11Scenario("denied-duplicate-vs-name-collider", kick, []int{0}, [][]c11Op{{D(1)}, {l(2)}}, 2, 4),
 		c11Scenario("name-replaced-then-leaves", kick, []int{0}, [][]c11Op{{l(2)}, {L(2)}}, 1, 3),
+		// the most common duplicate: the very same player (identical spelling, same UUID) twice at once; and
+		// two players that share neither name nor UUID
+		c11Scenario("2logins-identical-identity", off, nil, [][]c11Op{{L(0)}, {L(0)}}, 2, 4),
+		c11Scenario("2logins-identical-identity", kick, nil, [][]c11Op{{L(0)}, {L(0)}}, 2, 4),
+		c11Scenario("login-logout-vs-login-different-name-and-uuid", on, nil, [][]c11Op{{l(2)}, {L(3)}}, 2, 4),
 		// kick flag without online mode: both logins pass canRegisterConnection's duplicate check (nobody is
 		// registered yet) and then meet in registerConnection's kick branch
 		c11Scenario("2logins-same-uuid-name-variant", offkick, nil, [][]c11Op{{L(0)}, {L(1)}}, 2, 4),
